@@ -16,12 +16,17 @@ Memory model: sequential consistency (the atomic builtins are seq_cst, checked
 by C09 R-seqcst; the plain accesses to ring elements are treated as SC too -
 stated as an assumption in the evidence)."""
 import itertools
+import time
 
 from .absint import Machine, Finding, Undecided, PathEnd, SYM, wrap
 
 
 class Suspend(Exception):
     pass
+
+
+class Stop(Exception):
+    """raised by a call-back of the explorer: nothing more to learn from this configuration"""
 
 
 ATOMIC = {'uatomic_init', 'uatomic_store', 'uatomic_load', 'uatomic_compare_exchange',
@@ -386,6 +391,7 @@ class Explorer:
         self.transitions = 0
         self.machine_cls = machine_cls or RingMachine
         self.spin_bound = 120
+        self.deadline = None       # wall-clock limit (time.time() value)
         self.enabled = None        # (pending access, shared) -> may the thread take its next step?
         self.on_deadlock = None
         self.deadlocks = 0
@@ -424,6 +430,8 @@ class Explorer:
             self.states += 1
             if self.states > self.max_states:
                 raise Undecided('more than %d product states' % self.max_states)
+            if self.deadline is not None and (self.states & 255) == 0 and time.time() > self.deadline:
+                raise Undecided('time budget of this configuration used up after %d product states' % self.states)
             pending = [t for t in range(n) if not infos[t].finished]
             if pending and self.enabled is not None:
                 runnable = [t for t in pending if self.enabled(infos[t].pc, shared)]
